@@ -41,7 +41,7 @@ def run(tier):
     known = load_known(PID)
     jobs = [(run_b_job, ({'property': PID, 'scenario': c[0] if isinstance(c, tuple) else S,
                           'params': c[1] if isinstance(c, tuple) else c, 'known': known},
-                         2400 if tier == 'thorough' else 1500)) for c in configs(tier)]
+                         1800 if tier == 'thorough' else 1500)) for c in configs(tier)]
     # the batch collector's loop as a unit (CrossHair): which element kinds reach a batch, which are short-circuited
     jobs.append((run_condition, ({'module': 'harness.C09_batch', 'func': 'check_build_input_batches',
                                   'timeout': 600 if tier == 'thorough' else 200, 'property': PID},)))
